@@ -53,6 +53,18 @@ bounds-checked kernels of Kernels.v, e.g. searchsorted, and the kernels of Kerne
   `a[:, j] = v` (setcol2), np.arange(n), imports followed through package __init__ files, and two library operations
   that are not Python text and become extra (function) parameters of the generated kernel:
   `r.sort()` -> sort_ : list T -> list T,  `np.intp(np.floor(x * k))` -> floor_mul_ : T -> Z -> Z.
+
+Fourth output file coq/Gen/Kernels4.v (KERNELS4; scalar solvers; the three files above stay byte-identical):
+  function-typed parameters called as f(x, *args) (parameter type F: a Gallina argument f : T -> T, the ARGS tuple folded
+  in), floating-point literals (0.0 / 1.0 = nzero / none_, any other value v an extra parameter c_<v>; an int literal k
+  in a floating-point operation is k.0), abs / np.abs / np.sign / unary minus / np.isfinite / np.sqrt(<literal>) as extra
+  parameters abs_ sign_ neg_ isfinite_ sqrt_<v>, min / max / np.maximum / np.minimum (Python's comparisons), conditional
+  expressions, `a = b = e`, module-level int and str constants, `raise E(msg)` (the kernel then returns
+  (inl "E: msg" | inr value, ok__) and calls of raising kernels propagate inl), `return _results((x, fc, it, flag))`
+  (= (x, fc, it, flag == 0); the definition of _results is checked), loop variables that exist before the loop are
+  carried (Python keeps the last index; spec key `unbound` lists variables that Python leaves unbound until first
+  assigned: they start with a default), variables assigned in both branches of an if, np.zeros(n, dtype=np.int_),
+  np.empty((a, b), dtype=np.int_), `if k:` on an integer, x + (comparison), tuple-valued locals.
 """
 import ast, os, sys
 
@@ -167,6 +179,8 @@ KERNELS4 = [
          rtype=SOLVER_RT, fuels={},
          unbound=[("itr", "Z"), ("xblk", "T"), ("fblk", "T"), ("spre", "T"), ("scur", "T")]),
 ]
+# brent_max (scalar_maximization.py) translates with these features (np.isfinite, integer flags as conditions, x + (c),
+# tuple-valued locals) but has no tie lemma yet, so it is not generated.
 GT = "quantecon/_gridtools.py"
 KERNELS4 += [
     dict(cname="num_compositions_jit", file=GT, py="num_compositions_jit", params=[("m", "Z"), ("n", "Z")], rtype="Z", fuels={}),
@@ -279,7 +293,8 @@ def strip_doc(body):
 
 def is_cond(e):
     return isinstance(e, (ast.BoolOp, ast.Compare)) or (isinstance(e, ast.UnaryOp) and isinstance(e.op, ast.Not)) \
-        or (isinstance(e, ast.Constant) and isinstance(e.value, bool))
+        or (isinstance(e, ast.Constant) and isinstance(e.value, bool)) \
+        or (isinstance(e, ast.Call) and ast.unparse(e.func) == "np.isfinite" and len(e.args) == 1 and not e.keywords)
 
 
 class Tr:
@@ -379,6 +394,8 @@ class Tr:
                 return "T"
             if self.v2 and (a, b) == ("Z", "T") and self.intlit(e.left) is not None:
                 return "T"
+            if self.v4 and (a, b) == ("T", "B") and isinstance(e.op, ast.Add) and isinstance(e.right, ast.Compare):
+                return "T"                  # x + (c): a comparison counts as 1.0 / 0.0
             if self.v4 and (a, b) == ("T", "Z") and self.anyint(e.right) is not None:
                 return "T"
             if self.v4 and (a, b) == ("Z", "T") and self.anyint(e.left) is not None:
@@ -388,7 +405,8 @@ class Tr:
             return a
         if self.v2 and isinstance(e, ast.Tuple):
             ts = tuple(self.ty(x) for x in e.elts)
-            if len(ts) < 2 or any(t not in ("Z", "T", "B") for t in ts):
+            if len(ts) < 2 or any(t not in ("Z", "T", "B") and not (self.v4 and isinstance(t, tuple) and isinstance(x, ast.Name))
+                                  for t, x in zip(ts, e.elts)):
                 raise Unsupported("tuple %s" % ast.unparse(e))
             return ts
         if self.v2 and isinstance(e, ast.Attribute) and ast.unparse(e) == "np.inf":
@@ -712,6 +730,9 @@ class Tr:
             if isinstance(idx, ast.UnaryOp) or (isinstance(idx, ast.Constant) and idx.value < 0):
                 raise Unsupported("negative index")
             return "(nth (Z.to_nat %s) %s %s)" % (self.ex(idx), self.ex(e.value), d)
+        if self.v4 and isinstance(e, ast.BinOp) and isinstance(e.op, ast.Add) and isinstance(e.right, ast.Compare) \
+                and self.ty(e.left) == "T":
+            return "(nadd %s (if %s then none_ else nzero))" % (self.ex(e.left), self.cond(e.right))
         if isinstance(e, ast.BinOp):
             t = self.ty(e)
             a, b = (self.exT(e.left, t), self.exT(e.right, t)) if self.v2 else (self.ex(e.left), self.ex(e.right))
@@ -739,6 +760,12 @@ class Tr:
             return "true" if e.value else "false"
         if self.v2 and self.all_nonneg(e):
             return self.ex(e)
+        if self.v4 and isinstance(e, ast.Call) and ast.unparse(e.func) == "np.isfinite":
+            if self.ty(e.args[0]) != "T":
+                raise Unsupported("np.isfinite of %s" % ast.unparse(e.args[0]))
+            return "(%s %s)" % (self.use_amb("isfinite_"), self.ex(e.args[0]))
+        if self.v4 and isinstance(e, ast.Name) and self.ty(e) == "Z":
+            return "(negb (%s =? 0))" % e.id          # `if k:` on an integer
         if self.v2 and isinstance(e, ast.Compare) and len(e.ops) == 2:
             # a op b op c: the operands are pure, so this is (a op b) and (b op c)
             return "(%s && %s)" % (self.cond(ast.Compare(left=e.left, ops=[e.ops[0]], comparators=[e.comparators[0]])),
@@ -1047,6 +1074,9 @@ class Tr:
                     raise Unsupported("variable %s changes type" % tgt.id)
                 if tgt.id in self.params and self.types[tgt.id] in ("LT", "LZ", "MT", "MZ"):
                     raise Unsupported("rebinding array parameter %s" % tgt.id)
+                if self.v4 and isinstance(t, tuple) and isinstance(value, ast.Tuple) and tgt.id not in self.types:
+                    self.types[tgt.id] = t
+                    return self.guard([value], "let %s := %s in\n%s" % (tgt.id, self.ex(value), self.stmts(rest, k)))
                 if isinstance(t, tuple) or t in ("LT", "PO", "F", "ARGS") or \
                         (t == "MT" and not (self.v2 and self.np_empty2(value) is not None and tgt.id not in self.types)) or \
                         (t == "MZ" and not (self.v4 and self.np_int_alloc(value) is not None and tgt.id not in self.types)) or \
